@@ -90,7 +90,7 @@ func Load(dir string, cfg LoadConfig) *Prog {
 	}
 	env = append(env, "CGO_ENABLED=0")
 	pcfg := &packages.Config{
-		Mode:  packages.LoadAllSyntax,
+		Mode:  packages.LoadAllSyntax | packages.NeedModule,
 		Dir:   dir,
 		Env:   env,
 		Tests: cfg.Tests,
